@@ -558,6 +558,15 @@ def run_symbolic(contract, cfg, modules, seed=0, pool_size=6, max_paths=64, budg
         if out[0] == 'raise':
             e = out[1]
             tb = ''.join(traceback.format_exception(type(e), e, e.__traceback__)[-3:])
+            frames = traceback.extract_tb(e.__traceback__)
+            inner = frames[-1].filename if frames else ''
+            verif_root = __file__.rsplit('/pvc/', 1)[0]
+            if inner.startswith(verif_root) and not isinstance(e, (AssertionError,)):
+                # the exception was raised by the contract / engine code itself, not by the code under contract
+                run.results.append(dict(name=f'{name}:contract_code_error[path{pi}]', status='fault',
+                                        backend='path-execution', seconds=0.0, canary=False, witness=None,
+                                        detail=f'{type(e).__name__}: {e}\n{tb}', path=pi))
+                continue
             pts = _valid_points(pool, assume + pc)
             run.results.append(dict(name=f'{name}:no_exception[path{pi}]', status='refuted' if pts else 'undecided',
                                     backend='path-execution', seconds=0.0, canary=False,
